@@ -17,7 +17,7 @@ from .e1 import END, MEM, NULL, Imprecise
 from .e1explore import explore, witness, URI, STATE, ERRPOS
 from .e1monitor import DfaMonitor
 
-ENGINE_FILES = ['e1.py', 'e1static.py', 'e1explore.py', 'e1monitor.py', 'e1results.py', 'abnf.py', 'rfc3986.abnf', 'ir.py',
+ENGINE_FILES = ['e1.py', 'e1monitor.py', 'e1static.py', 'e1explore.py', 'e1monitor.py', 'e1results.py', 'abnf.py', 'rfc3986.abnf', 'ir.py',
                 'frontend.py']
 
 
@@ -80,9 +80,18 @@ def _compute(ctx, suf, entry, monitor_kind, log=None):
         if where == 'STATE':
             st.env[(STATE, ('uri',))] = ('a', URI, ())
         m.push_frame(st, fname, mkargs(m), None, False, None)
-    mon = DfaMonitor(dfa)
+    if monitor_kind == 'cls':
+        from .abnf import indicator_dfas
+        from .e1monitor import ClassifierMonitor
+        names, dfas, joint = indicator_dfas()
+        mon = ClassifierMonitor(names, dfas)
+        base_classes = joint
+        dfa = dfas[0]
+    else:
+        mon = DfaMonitor(dfa)
+        base_classes = dfa.class_of
     workers = int(os.environ.get('E1_WORKERS', '12'))
-    res = explore(ctx, suf, fname, setup, mon, dfa.class_of, nul=nul, log=log, workers=workers)
+    res = explore(ctx, suf, fname, setup, mon, base_classes, nul=nul, log=log, workers=workers)
     al = res.alphabet
     finals = []
     for (m, st, val, nid) in res.finals:
@@ -94,7 +103,10 @@ def _compute(ctx, suf, entry, monitor_kind, log=None):
             ep = None
         code2 = st.env.get((STATE, ('errorCode',))) if where == 'STATE' else None
         regs = dict((k[1], v) for k, v in st.env.items() if k[0] == URI)
-        finals.append({'m': m, 'ret': val, 'errpos': ep, 'errcode': code2, 'eof': st.eof, 'oom': bool(st.flags.get('oom')),
+        ind = mon.indicators(m) if monitor_kind == 'cls' else None
+        if monitor_kind == 'cls':
+            m = (m[0][0],) + tuple(m[1:])
+        finals.append({'ind': ind, 'm': m, 'ret': val, 'errpos': ep, 'errcode': code2, 'eof': st.eof, 'oom': bool(st.flags.get('oom')),
                        'heap': dict(st.heap), 'nid': nid, 'regs': regs})
     finds = []
     for (f, nid, m) in res.findings:
